@@ -405,15 +405,17 @@ public:
       _search_end = Support::max(_search_end, released_area_end);
       clear_flags(kFlagDirty | kFlagIncremental);
 
-      if (area_used() == initial_area_start()) {
-        _search_start = initial_area_start();
-        _search_end = _area_size;
-        _largest_unused_area = _area_size - initial_area_start();
-        add_flags(kFlagEmpty);
-      }
-      else {
+      if (area_used() != initial_area_start()) {
         add_flags(kFlagDirty);
       }
+    }
+
+    // The block can become empty in both modes (releasing the allocations in reverse order keeps it incremental).
+    if (area_used() == initial_area_start()) {
+      _search_start = initial_area_start();
+      _search_end = _area_size;
+      _largest_unused_area = _area_size - initial_area_start();
+      add_flags(kFlagEmpty);
     }
   }
 
